@@ -127,6 +127,7 @@ def _ops():
         'asdict': lambda a, v: a.__asdict__(),
         'load': loader,
         'open': None,
+        'open_cached': None,
     }
 
 
@@ -137,6 +138,8 @@ PAIRS_DIR = [('set_c', 'set_d'), ('set_c', 'get_b'), ('set_c', 'in_a'), ('set_c'
 PAIRS_FILE = [('set_c', 'get_b'), ('set_c', 'asdict'), ('set_c', 'len'), ('set_c', 'load'), ('set_c', 'open'), ('set_a', 'get_a'),
               ('set_a', 'asdict'), ('set_a', 'open'), ('del_a', 'asdict'), ('del_a', 'open'), ('set_a', 'in_a'), ('set_a', 'iter')]
 TRIPLES_DIR = [('set_c', 'set_d', 'len'), ('set_c', 'set_d', 'asdict')]
+# opening the way most programs do (cached=True, the default: an in-memory cache in front of the archive), on an empty and on a filled archive
+PAIRS_OPEN = [('set_c', 'open_cached'), ('set_a', 'open_cached'), ('del_a', 'open_cached')]
 WRITERS = ('set_a', 'set_b', 'set_c', 'set_d', 'del_a')
 
 
@@ -231,11 +234,13 @@ class Conc:
         fs = arch.installer().fresh()
         a0 = arch.make(kind, 'memo')
         old = {}
-        for k in ('a', 'b'):
+        for k in ('a', 'b')[:cfg.get('prior', 2)]:
             v = ctx.atom(ValSort, 'v')
             a0[k] = v
             old[k] = v
         vals = [ctx.atom(ValSort, 'n'), ctx.atom(ValSort, 'n')]
+        if cfg.get('buffered'):
+            fs.buffered = ctx.bool('buffered')       # small data stays in the writer's userspace buffer until flush/close
         OPS = _ops()
         sch = Sched(lambda: ctx.bool('pre'), lambda n: ctx.choice(n, 'nx'), cfg.get('preemptions', 2))
         fs.hook = lambda name, args: sch.point(name)
@@ -243,6 +248,8 @@ class Conc:
         for o in ops:
             if o == 'open':
                 sch.spawn(o, lambda: arch.make(kind, 'memo') and None)
+            elif o == 'open_cached':
+                sch.spawn(o, lambda: make_cached(kind, 'memo') and None)
             else:
                 h = arch.make(kind, 'memo')        # each process has its own handle (opened beforehand)
                 handles.append(h)
@@ -317,7 +324,7 @@ class Conc:
         try:
             os.chdir(d)
             a0 = arch.make(kind, 'memo')
-            old = {'a': 'old_a', 'b': 'old_b'}
+            old = {k: 'old_' + k for k in ('a', 'b')[:cfg.get('prior', 2)]}
             for k, v in old.items():
                 a0[k] = v
             vals = ['new_1', 'new_2']
@@ -349,10 +356,39 @@ class Conc:
                 saved[n] = getattr(os, n)
                 setattr(os, n, wrap(saved[n], n))
             real_open = builtins.open
-            A.open = wrap(real_open, 'open')
+
+            class YFile:
+                """real file object with a yield point before flush/close (where buffered data reaches the file)"""
+
+                def __init__(self, f):
+                    self._f = f
+
+                def __enter__(self):
+                    return self
+
+                def __exit__(self, *a):
+                    self.close()
+
+                def close(self):
+                    if not self._f.closed and 'w' in getattr(self._f, 'mode', ''):
+                        sch.point('close')
+                    self._f.close()
+
+                def __getattr__(self, n):
+                    return getattr(self._f, n)
+
+                def __iter__(self):
+                    return iter(self._f)
+
+            def yopen(*a, **k):
+                sch.point('open')
+                return YFile(real_open(*a, **k))
+            A.open = yopen
             for o in ops:
                 if o == 'open':
                     sch.spawn(o, lambda: arch.make(kind, 'memo') and None)
+                elif o == 'open_cached':
+                    sch.spawn(o, lambda: make_cached(kind, 'memo') and None)
                 else:
                     h = arch.make(kind, 'memo')
                     sch.spawn(o, (lambda f, hh: (lambda: f(hh, vals)))(OPS[o], h))
@@ -378,6 +414,20 @@ class Conc:
             shutil.rmtree(d, ignore_errors=True)
 
 
+def make_cached(kind, name):
+    """the default way of opening an archive: an in-memory cache in front of it (cached=True)"""
+    import klepto.archives as KA
+    if kind == 'file':
+        return KA.file_archive(name + '.pkl')
+    if kind == 'filejson':
+        return KA.file_archive(name + '.json', protocol='json')
+    if kind == 'dir':
+        return KA.dir_archive(name)
+    if kind == 'dirjson':
+        return KA.dir_archive(name, protocol='json')
+    raise ValueError(kind)
+
+
 def build(cfg):
     return Conc(cfg)
 
@@ -393,6 +443,17 @@ def plan(prop, tier):
         for kind in ('dirjson', 'filejson'):
             for ops in (PAIRS_DIR if kind.startswith('dir') else PAIRS_FILE)[:8]:
                 cfgs.append({'name': 'conc/%s/%s' % (kind, '|'.join(ops)), 'kind': kind, 'ops': list(ops), 'props': ['C14'], 'preemptions': 2})
+    for kind in ('dir', 'file'):
+        for ops in PAIRS_OPEN:
+            for prior in (0, 2):
+                if prior == 0 and ops[0] != 'set_c':
+                    continue
+                cfgs.append({'name': 'conc/%s/%s/prior%d' % (kind, '|'.join(ops), prior), 'kind': kind, 'ops': list(ops), 'props': ['C14'],
+                             'prior': prior, 'preemptions': 2 if q else 3, 'weight': 3})
+        # written data may sit in the writer's buffer until close: a reader must still see a complete dictionary
+        for ops in (('set_c', 'asdict'), ('set_a', 'get_a'), ('set_c', 'open_cached')):
+            cfgs.append({'name': 'conc/%s/%s/buffered' % (kind, '|'.join(ops)), 'kind': kind, 'ops': list(ops), 'props': ['C14'],
+                         'buffered': True, 'preemptions': 2, 'weight': 5})
     for ops in TRIPLES_DIR:
         cfgs.append({'name': 'conc/dir/%s' % '|'.join(ops), 'kind': 'dir', 'ops': list(ops), 'props': ['C14'],
                      'preemptions': 1 if q else 2, 'weight': 10})
